@@ -69,3 +69,83 @@ Proof.
   rewrite Hs, E_sum. field. unfold qn. intros H. unfold Qeq in H. simpl in H. lia.
 Qed.
 End Exp.
+
+(* ---- all shells together: the shell estimators add up to the evidence, the shell volumes to the prior volume ---- *)
+Section Shells.
+Variable A : Type.
+Variable X : list A.                          (* the cells of the unit cube *)
+Variable L : A -> Q.                          (* likelihood per cell *)
+
+(* shell of bound b given the bounds built later: in b and in none of the later ones *)
+Definition in_shell (b : A -> bool) (later : list (A -> bool)) (x : A) : bool := b x && forallb (fun k => negb (k x)) later.
+(* number of shells a cell belongs to *)
+Fixpoint shells_of (bs : list (A -> bool)) (x : A) : Q :=
+  match bs with [] => 0 | b :: r => b2q (in_shell b r x) + shells_of r x end.
+
+Lemma shells_of_one bs x : shells_of bs x == (if existsb (fun b => b x) bs then 1 else 0).
+Proof.
+  induction bs as [|b r IH]; simpl; [reflexivity|]. rewrite IH. unfold in_shell.
+  destruct (existsb (fun b0 => b0 x) r) eqn:E.
+  - assert (F : forallb (fun k => negb (k x)) r = false).
+    { apply Bool.not_true_iff_false. intros H. rewrite forallb_forall in H. apply existsb_exists in E. destruct E as (k & Hk & Hx).
+      specialize (H k Hk). rewrite Hx in H. discriminate. }
+    rewrite F, andb_false_r, orb_true_r. simpl. ring.
+  - assert (F : forallb (fun k => negb (k x)) r = true).
+    { apply forallb_forall. intros k Hk. destruct (k x) eqn:Hx; auto. exfalso.
+      assert (existsb (fun b0 => b0 x) r = true) by (apply existsb_exists; eauto). congruence. }
+    rewrite F, andb_true_r, orb_false_r. destruct (b x); simpl; ring.
+Qed.
+
+(* what the estimator of shell (b, later) converges to: volume fraction of the bound times the mean over the bound of 1_shell L.
+   With uniform proposals in b this is E(Zhat) by C04_shell_unbiased (volB = |b| / |X|). *)
+Definition zshell (b : A -> bool) (later : list (A -> bool)) : Q :=
+  qsum (map (fun x => b2q (in_shell b later x) * L x) X) / qn (length X).
+Fixpoint zsum (bs : list (A -> bool)) : Q := match bs with [] => 0 | b :: r => zshell b r + zsum r end.
+
+Lemma qsum_plus {B} (f g : B -> Q) l : qsum (map (fun x => f x + g x) l) == qsum (map f l) + qsum (map g l).
+Proof. induction l; simpl; [ring|rewrite IHl; ring]. Qed.
+
+Theorem shells_partition_sum bs : X <> [] -> zsum bs == qsum (map (fun x => shells_of bs x * L x) X) / qn (length X).
+Proof.
+  intros HX. assert (Hn : ~ qn (length X) == 0).
+  { destruct X; [contradiction|]. unfold qn. intros H. unfold Qeq in H. simpl in H. lia. }
+  induction bs as [|b r IH]; simpl.
+  - rewrite (qsum_ext _ (fun _ => 0)); [|intros; ring]. assert (G : forall l : list A, qsum (map (fun _ => 0) l) == 0) by (induction l; simpl; [reflexivity|rewrite IHl; ring]).
+    rewrite G. field. exact Hn.
+  - rewrite IH. unfold zshell. rewrite (qsum_ext (fun x => (b2q (in_shell b r x) + shells_of r x) * L x) (fun x => b2q (in_shell b r x) * L x + shells_of r x * L x)); [|intros; ring].
+    rewrite qsum_plus. field. exact Hn.
+Qed.
+
+(* C04: if the first bound is the whole cube, the shell terms add up to the evidence (mean likelihood over the cube) ... *)
+Theorem C04_unbiased b0 r : X <> [] -> (forall x, In x X -> b0 x = true) -> zsum (b0 :: r) == qsum (map L X) / qn (length X).
+Proof.
+  intros HX H0. rewrite shells_partition_sum by exact HX.
+  rewrite (qsum_ext (fun x => shells_of (b0 :: r) x * L x) L); [reflexivity|].
+  intros x Hx. rewrite shells_of_one. simpl. rewrite (H0 x Hx). simpl. ring.
+Qed.
+End Shells.
+
+(* ... and with L = 1 the shell volumes add up to one, whatever the likelihood that shaped the bounds *)
+Theorem C04_volumes_sum (A : Type) (X : list A) b0 r : X <> [] -> (forall x, In x X -> b0 x = true) -> zsum A X (fun _ => 1) (b0 :: r) == 1.
+Proof.
+  intros HX H0. rewrite C04_unbiased by auto.
+  assert (G : forall l : list A, qsum (map (fun _ => 1) l) == qn (length l)).
+  { induction l; simpl; [reflexivity|]. rewrite IHl. unfold qn. rewrite Nat2Z.inj_succ, <- Z.add_1_l, inject_Z_plus. reflexivity. }
+  rewrite G. field. destruct X; [contradiction|]. unfold qn. intros H. unfold Qeq in H. simpl in H. lia.
+Qed.
+
+(* link between the two: the limit of shell i is (volume fraction of bound i) x (mean over bound i of 1_shell L), i.e. what
+   C04_shell_unbiased shows the estimator has as expectation under uniform proposals in the bound *)
+Lemma qsum_filter {A} (p : A -> bool) (f : A -> Q) l : qsum (map f (filter p l)) == qsum (map (fun x => b2q (p x) * f x) l).
+Proof. induction l as [|a l IH]; simpl; [reflexivity|]. destruct (p a); simpl; rewrite IH; ring. Qed.
+Theorem zshell_bound_average (A : Type) (X : list A) (L : A -> Q) b later : filter b X <> [] ->
+  zshell A X L b later == (qn (length (filter b X)) / qn (length X)) * avg A (filter b X) (fun x => b2q (in_shell A b later x) * L x).
+Proof.
+  intros HB. unfold zshell, avg. rewrite qsum_filter.
+  rewrite (qsum_ext (fun x => b2q (b x) * (b2q (in_shell A b later x) * L x)) (fun x => b2q (in_shell A b later x) * L x)).
+  - assert (HX : X <> []) by (intros E; rewrite E in HB; apply HB; reflexivity).
+    field. split.
+    + destruct (filter b X); [contradiction|]. unfold qn. intros H. unfold Qeq in H. simpl in H. lia.
+    + destruct X; [contradiction|]. unfold qn. intros H. unfold Qeq in H. simpl in H. lia.
+  - intros x _. unfold in_shell. destruct (b x); simpl; ring.
+Qed.
